@@ -297,7 +297,7 @@ def builder_case(ctx, case):
 def blocks(tier, seed):
     q = tier == 'quick'
     tws = tweak_scalars(seed, not q)
-    alg = [(k, ml, tn, t) for k in (range(1) if q else range(3)) for ml in MSG_LENS for tn, t in tws]
+    alg = [(k, ml, tn, t) for k in (range(2) if q else range(3)) for ml in MSG_LENS for tn, t in tws]
     if q:
         alg += [(k, ml, tn, t) for k in (1, 2) for ml in (0, 32, 65) for tn, t in tws[:8]]
     bases = [(0, 32, tws[6][0], tws[6][1]), (1, 65, tws[2][0], tws[2][1])]
